@@ -109,19 +109,24 @@ def concrete(tab, twins=False, nch=3):
             if is_nan(p):
                 continue
             # a per-cell offset far below every tolerance keeps eigenvalues of different cells distinct
-            eps = 1e-9 * (1 + r + nr * c)
+            # (twins only) a per-cell offset far below every tolerance keeps eigenvalues of different slots
+            # distinct; without twins, equal abstract frequencies are bit-equal concrete frequencies
+            eps = 1e-9 * (1 + r + nr * c) if twins else 0.0
             lam = lam_of(p["f"], p["xi"]) * (1 + eps)
             rows = [(k * r, lam, norm_shape(p["sh"]))]
             if twins and p["cj"]:
                 rows.append((k * r + 1, lam.conjugate(), norm_shape(p["sh"]).conjugate()))
+            uniq = 1 + 1e-7 * (1 + r + nr * c)   # every concrete cell carries its own damping / shape values
             for rr, l, ph in rows:
                 Lam[rr, c] = l
                 Fn[rr, c] = abs(l) / (2 * math.pi)
-                Xi[rr, c] = -l.real / abs(l)
+                Xi[rr, c] = -l.real / abs(l) * uniq
+                ph = ph.copy()
+                ph[int(np.argmin(np.abs(ph)))] *= uniq
                 Phi[rr, c, :] = ph
-                Fc[rr, c] = p["cov"] / CDEN
-                Xc[rr, c] = 0.5 * p["cov"] / CDEN
-                Pc[rr, c, :] = 0.25 * p["cov"] / CDEN
+                Fc[rr, c] = p["cov"] / CDEN * uniq
+                Xc[rr, c] = 0.5 * p["cov"] / CDEN * uniq
+                Pc[rr, c, :] = 0.25 * p["cov"] / CDEN * uniq
     return dict(Fn=Fn, Xi=Xi, Lam=Lam, Phi=Phi, Fn_cov=Fc, Xi_cov=Xc, Phi_cov=Pc)
 
 
